@@ -788,7 +788,7 @@ func main() {
 	rep.Extra["divergences_not_reproduced_in_fresh_context"] = flaky
 	rep.Extra["exhaustive_note"] = "the enumerated families are exhaustive within their stated bounds; operand-value vectors of pair/triple/form/stmt families and (quick) the depth-2 trees are seeded samples"
 	if nprim == 0 || famCount["pair"] == 0 || famCount["stmt"] == 0 || shortCut == 0 || nondet == 0 {
-		common.Inconclusive("property=C01 vacuous run: prim=%d pair=%d stmt=%d shortcut=%d nondet=%d", nprim, famCount["pair"], famCount["stmt"], shortCut, nondet)
+		common.Vacuous("property=C01 vacuous run: prim=%d pair=%d stmt=%d shortcut=%d nondet=%d", nprim, famCount["pair"], famCount["stmt"], shortCut, nondet)
 	}
 	rep.Finish()
 }
